@@ -356,7 +356,7 @@ def c16_replay(case):
             if G is None: return [("C16/other-error", "graph could not be built: %r" % (st,))]
             if "vseed" in case:
                 import writeprops
-                _, G = writeprops.graph_variant(G, random.Random(case["vseed"]), kinds=["as-parsed", "as-parsed", "permuted", "relabelled"])
+                _, G = writeprops.graph_variant(G, random.Random(case["vseed"]), kinds=["as-parsed", "permuted"] if case.get("sweep") else ["as-parsed", "as-parsed", "permuted", "relabelled"])
             return c16_oracle(G, case["uri"], work)[4]
         finally:
             shutil.rmtree(work, ignore_errors=True)
@@ -388,6 +388,9 @@ def run_c16(ctx):
                T.UAString("x"), T.UAGuid("00000000-0000-0000-0000-000000000001"), T.UAByteString(b"ab"), T.UALocalizedText("t", "en")]
         for v in own: sweep.append([(v, type(v).__name__[2:])])
         for v in own[:6]: sweep.append([(v, type(v).__name__[2:]), (T.UAInt32(2) if not isinstance(v, T.UAInt32) else T.UAByte(2), "XmlElement" if len(sweep) % 2 else "Guid")])
+        # long arrays (list values are never rejected, whatever their length and whatever built-in type is declared)
+        sweep.append([(T.UAListOf(tuple(T.UAInt32(i) for i in range(150)), "Int32"), "Int32")])
+        sweep.append([(T.UAListOf(tuple(T.UADouble(i + 0.5) for i in range(101)), "Double"), "String"), (T.UAListOf(tuple(T.UAString("s%d" % i) for i in range(3)), "String"), "Int32")])
         n_rand = 35 if ctx.quick() else 600
         for ci in range(len(sweep) + n_rand):
             g = nsgen.gen_graph(rng, n_ns=1, n_nodes=rng.randint(0, 2), hostile=False, with_values=False, dangling=False)
@@ -409,11 +412,12 @@ def run_c16(ctx):
             # the same graph held differently (row order, row labels): UAGraph takes any tables
             import writeprops
             vseed = rng.randrange(2 ** 31)
-            variant, G = writeprops.graph_variant(G, random.Random(vseed), kinds=["as-parsed", "as-parsed", "permuted", "relabelled"])
+            # (the grid sweep on the tables as parsed and on a permutation only: with re-labelled rows the recorded finding 'row-labels-as-ids' decides the outcome)
+            variant, G = writeprops.graph_variant(G, random.Random(vseed), kinds=["as-parsed", "as-parsed", "permuted", "relabelled"] if ci >= len(sweep) else ["as-parsed", "permuted"])
             impl, gn, dtn, has_col, fails, offenders = c16_oracle(G, g.uris[0], work)
             reqs.append([Sym("c16_validate"), gn, dtn, has_col]); meta.append((ci, impl))
             ctx.record(dict(case=ci, vars=[(str(k[2]), type(d["value"]).__name__, d["datatype"] and d["datatype"][2]) for k, d in vars_.items()]), bool(offenders), ["offenders=%d" % min(len(offenders), 3)])
-            for sig, detail in fails: ctx.fail(sig, dict(kind="docset", files=files, uri=g.uris[0], vseed=vseed), detail)
+            for sig, detail in fails: ctx.fail(sig, dict(kind="docset", files=files, uri=g.uris[0], vseed=vseed, sweep=ci < len(sweep)), detail)
     finally:
         shutil.rmtree(work, ignore_errors=True)
     ans = vlib.run_model(reqs, shards=8)
